@@ -5,7 +5,7 @@ from multiprocessing import Pool
 import vlib, corpus
 
 CACHE = os.path.join(vlib.VERIF, "cache")
-FLAGS = ["wf", "replay", "c01", "c01_strict", "paren", "lenpres", "c02", "c02_rem", "layout", "case", "ident", "same_count", "cterm", "wsadj", "kinds"]
+FLAGS = ["wf", "replay", "c01", "c01_strict", "paren", "lenpres", "c02", "c02_rem", "layout", "case", "ident", "same_count", "cterm", "wsadj", "kinds", "shape", "glue"]
 
 
 def machinery_hash():
@@ -48,7 +48,9 @@ def plan(tier):
             add(f)
         for f in fs:
             add(f, ["--style", "jcl"])
-        for f in r.sample(fs, 600):
+        import random as _rnd
+
+        for f in _rnd.Random("indent_only").sample(fs, 600):  # the same files for every seed: thorough covers every run quick can make
             add(f, ["--style", "indent_only"])
         var_files = sorted(set(inputs + ex))
         n_opt_rule, n_opt_gen = 10 ** 6, 10 ** 6
@@ -229,12 +231,14 @@ def compute(tier, d):
             o["checker_error"] = se
             continue
         recs = o["records"]
+        n_r = 0
         for line in so.split("\n"):
             p_ = line.split()
             if not p_:
                 continue
             if p_[0] == "R":
                 i = int(p_[1])
+                n_r = i + 1
                 bar = p_.index("|")
                 for name, v in zip(FLAGS, p_[2:bar]):
                     recs[i][name] = v == "1"
@@ -243,12 +247,15 @@ def compute(tier, d):
             elif p_[0] == "I":
                 o["init_kinds_ok"] = p_[2] == "1"
                 o["n_lines_init"] = int(p_[3])
+                o["init_shape"], o["init_glue"] = p_[4] == "1", p_[5] == "1"
             elif p_[0] == "S":
                 o.setdefault("sync", []).append((p_[1], p_[2] == "1"))
+                o.setdefault("marks", []).append({"after_record": n_r, "norm": p_[1], "shape": p_[3] == "1", "glue": p_[4] == "1"})
             elif p_[0] == "E":
                 o["end_ok"] = p_[1] == "1"
                 o["run_c01"], o["run_c02_eq"], o["run_c02_sub"] = (p_[2] == "1", p_[3] == "1", p_[4] == "1")
                 o["n_lines_final"] = int(p_[5])
+                o["end_shape"], o["end_glue"] = p_[6] == "1", p_[7] == "1"
         try:
             os.unlink(j["trace_path"])
         except OSError:
